@@ -364,7 +364,12 @@ def run(repo, rep):
     # functions call (Vincenty inverse / direct formulas, the accepted band of the projection in both directions) are part of this property
     from . import c04, c05, c01, c02
     c05.run(repo, rep)
-    c04.run(repo, rep)
+    # vincdir_utm hands lon2 to geo2grid, which accepts [-180, 180] only: here the longitude is compared as a number, not modulo a turn
+    c04.LON_MODULO_TURN[0] = False
+    try:
+        c04.run(repo, rep)
+    finally:
+        c04.LON_MODULO_TURN[0] = True
     alg.reset()
     c01.guard_rules(repo, rep)
     c02.guard_rules(repo, rep)
